@@ -51,6 +51,7 @@ def instances(tier, seed):
     add("seq:unused-atom-type-rows-no-pair-coeffs-then-extend", seq=['ext'], N=3, terms={'bond': 1}, oterms='bond', no_pair=True, atom_type_hi=1, cost=5)
     add("seq:delete-all-atoms-then-extend", seq=['delall', 'ext'], N=2, terms={'bond': 1}, oterms='bond', cost=5)
     add("seq:getitem-then-extend", seq=['getitem', 'ext'], N=3, terms={'bond': 1}, oterms='angle', cost=30)
+    add("seq:extend-with-a-map-object-used-before-on-a-copy", seq=['extmap-same-map-object-used-before'], N=3, terms={'bond': 1}, oterms='bond', cost=30)
     add("seq:copy-then-extend-copy", seq=['copyext'], N=3, terms={'bond': 1}, oterms='bond', oextra=True, cost=10)
     add("seq:extend-then-delete", seq=['ext', 'del'], N=3, terms={'bond': 1}, oterms='bond', K=1, cost=60)
     add("seq:delete-then-delete", seq=['del', 'del'], N=4, terms={'bond': 1, 'angle': 1}, K=1, cost=30)
@@ -200,6 +201,18 @@ def body(ctx, p):
             m = c11_extend.build_map(ctx, so.N, n, tag=str(step)) if op == 'extmap' and n else {}
             a.extend(o, structure_index_map=dict(m))
             c11_extend.check_extend(ctx, sp, so, m, a, label=lab)
+        elif op == 'extmap-same-map-object-used-before':
+            # HISTORY: the caller's map object was already passed to an extend() of ANOTHER object (a copy of this one); the second call must
+            # behave as if the map were fresh, and the caller's map must still say what the caller wrote into it
+            o, so = make_other(ctx, p, str(step))
+            m = c11_extend.build_map(ctx, so.N, n, tag=str(step)) if n else {}
+            shared_map = dict(m)
+            b = a.copy()
+            b.extend(o, structure_index_map=shared_map)
+            a.extend(o, structure_index_map=shared_map)
+            c11_extend.check_extend(ctx, sp, so, m, a, label=lab)
+            ctx.require(lab + "the caller's identity map is left as the caller wrote it", sorted(shared_map) == sorted(m) and all(bool(EQ(shared_map[k], m[k])) if not ctx.sym else True for k in m),
+                        detail=dict(keys=sorted(shared_map)))
         elif op == 'copyext':
             o, so = make_other(ctx, p, str(step))
             b = a.copy()
